@@ -601,6 +601,51 @@ func checkCloneWithCarries(w *World, r *Report, id string, names ...string) {
 				cal := staticCallee(x)
 				if cal == nil || writes(cal, f, 0, map[*ssa.Function]bool{}) {
 					all = append(all, in)
+					// a helper that copies the field from the receiver to the copy on all its paths (cp.inherit(c)) stands for the store
+					if cal != nil && len(cal.Blocks) > 0 {
+						args := callArgs(x)
+						pi, pj := -1, -1
+						for k, a := range args {
+							if k < len(cal.Params) {
+								if isCp(a) {
+									pi = k
+								}
+								if stripIface(seeThrough(a)) == recv {
+									pj = k
+								}
+							}
+						}
+						if pi >= 0 && pj >= 0 {
+							var stores []*ssa.Store
+							otherWriter := false
+							eachInstr(cal, func(in2 ssa.Instruction) {
+								switch y := in2.(type) {
+								case *ssa.Store:
+									if _, ff, ok := fieldOfAddr(y.Addr); ok && ff == f {
+										stores = append(stores, y)
+									}
+								case ssa.CallInstruction:
+									if c2 := staticCallee(y); c2 != nil && c2.Pkg == cal.Pkg && writes(c2, f, 0, map[*ssa.Function]bool{}) {
+										otherWriter = true
+									}
+								}
+							})
+							if len(stores) == 1 && !otherWriter {
+								st := stores[0]
+								b1, _, _ := fieldOfAddr(st.Addr)
+								b2, f2, okl := loadedField(st.Val)
+								domAll := true
+								eachInstr(cal, func(in2 ssa.Instruction) {
+									if rt, ok := in2.(*ssa.Return); ok && !instrDominates(st, rt) {
+										domAll = false
+									}
+								})
+								if okl && f2 == f && seeThrough(b1) == ssa.Value(cal.Params[pi]) && seeThrough(b2) == ssa.Value(cal.Params[pj]) && domAll {
+									good = append(good, in)
+								}
+							}
+						}
+					}
 				}
 			}
 		})
@@ -821,6 +866,41 @@ func checkC12MemoInvalidation(w *World, r *Report, cf *CtxFlow) {
 					b2, f2, ok := fieldOfAddr(st2.Addr)
 					if ok && f2 == d.memo && sameExpr(seeThrough(b2), seeThrough(base)) && (instrDominates(st, st2) || instrDominates(st2, st)) {
 						cleared = true
+					}
+				})
+				// or through a helper handed the same context, which clears the memo on all its paths (cp.inherit(c))
+				eachInstr(fn, func(in2 ssa.Instruction) {
+					site, ok := in2.(ssa.CallInstruction)
+					if !ok || cleared {
+						return
+					}
+					cal := staticCallee(site)
+					if cal == nil || len(cal.Blocks) == 0 || !w.InModule(cal) || !(instrDominates(st, in2) || instrDominates(in2, st)) {
+						return
+					}
+					for k, a := range callArgs(site) {
+						if k >= len(cal.Params) || !sameExpr(seeThrough(a), seeThrough(base)) {
+							continue
+						}
+						eachInstr(cal, func(in3 ssa.Instruction) {
+							st3, ok := in3.(*ssa.Store)
+							if !ok || !isNilConst(st3.Val) {
+								return
+							}
+							b3, f3, ok := fieldOfAddr(st3.Addr)
+							if !ok || f3 != d.memo || seeThrough(b3) != ssa.Value(cal.Params[k]) {
+								return
+							}
+							domAll := true
+							eachInstr(cal, func(in4 ssa.Instruction) {
+								if rt, ok := in4.(*ssa.Return); ok && !instrDominates(st3, rt) {
+									domAll = false
+								}
+							})
+							if domAll {
+								cleared = true
+							}
+						})
 					}
 				})
 				ru.Check("assignment of cTx."+d.src.Name()+" in "+FuncName(fn), w.InstrPos(st), "the same function sets cTx."+d.memo.Name()+" = nil on that context", cleared,
